@@ -64,7 +64,7 @@ INTERRUPTIBLE = ('q', 'dwc', 'list_t', 'list_c', 'step', 'exhaustive',
 # --------------------------------------------------------------------------
 # generation
 # --------------------------------------------------------------------------
-def _gen_panel(rng, tier, profile):
+def _gen_panel(rng, tier, profile, stress=False):
   if profile == 'c14':
     n_geos = rng.choice((4, 5, 5, 6) if tier == 'thorough' else (4, 4, 5, 5))
   elif tier == 'thorough':
@@ -89,7 +89,7 @@ def _gen_panel(rng, tier, profile):
   degenerate = rng.random() < 0.06
   # heterogeneous noise: the ranking of geos by required impact then differs
   # from their ranking by volume
-  hetero = rng.random() < 0.5
+  hetero = stress or rng.random() < 0.5
   values = []
   for g in range(n_geos):
     size = math.exp(rng.gauss(0, 0.8)) * 3
@@ -118,10 +118,12 @@ def _gen_panel(rng, tier, profile):
           'row_order_seed': rng.randrange(10**6)}
 
 
-def _gen_elig(rng, panel):
-  if rng.random() < 0.45:
+def _gen_elig(rng, panel, stress=False):
+  if not stress and rng.random() < 0.45:
     return None
   mix = rng.choice(('mostly_free', 'mixed', 'fixed_heavy'))
+  if stress:
+    mix = rng.choice(('mixed', 'fixed_heavy'))
   rows = []
   for g in panel['geos']:
     if mix == 'mostly_free':
@@ -137,7 +139,7 @@ def _gen_elig(rng, panel):
   return rows
 
 
-def _gen_par(rng, panel, profile):
+def _gen_par(rng, panel, profile, stress=False):
   n_dates = panel['n_dates']
   n_test = rng.choice((1, 2, 3, 5, 7))
   n_test = max(1, min(n_test, n_dates - 5))
@@ -156,7 +158,7 @@ def _gen_par(rng, panel, profile):
     par['budget_range'] = rng.choice(
         ([0.0, tot * 10], [0.0, tot * 0.05],
          [tot * 0.001, tot * 0.5],
-         [0.0, tot * 0.3]))
+         [0.0, tot * 0.3], [0.0, tot * 0.006], [0.0, tot * 0.0015]))
   if maybe(0.3):
     par['treatment_geos_range'] = rng.choice(([1, 2], [2, 3], [1, 1], [1, 4]))
   if maybe(0.3):
@@ -165,6 +167,16 @@ def _gen_par(rng, panel, profile):
     par['n_geos_max'] = rng.choice((2, 3, 3, 4))
   if maybe(0.4):
     par['n_pretest_max'] = rng.randrange(max(3, n_test + 3), n_dates + 5)
+  if stress:
+    # several geo-level constraints binding at once
+    n_geos = len(panel['geos'])
+    par['n_geos_max'] = max(2, n_geos - rng.choice((1, 1, 2)))
+    if rng.random() < 0.6:
+      par['budget_range'] = rng.choice(([0.0, tot * 0.05], [0.0, tot * 0.006],
+                                        [0.0, tot * 0.0015],
+                                        [tot * 0.0002, tot * 0.01]))
+    if rng.random() < 0.4:
+      par['treatment_share_range'] = rng.choice(([0.05, 0.6], [0.1, 0.9]))
   if profile == 'c14':
     par['n_designs'] = rng.choice((1, 2, 3, 5, 8, 50))
   elif maybe(0.7):
@@ -300,9 +312,13 @@ def _gen_ops(rng, tier, profile, n_geos):
 
 
 def generate(rng, tier, profile='faultfree'):
-  panel = _gen_panel(rng, tier, profile)
-  elig = _gen_elig(rng, panel)
-  par = _gen_par(rng, panel, profile)
+  # swarm: a quarter of the runs stack the geo-level constraints (binding
+  # n_geos_max, budget / share ranges, mixed eligibility, impact ranking
+  # different from the volume ranking) instead of drawing them independently
+  stress = profile != 'c14' and rng.random() < 0.25
+  panel = _gen_panel(rng, tier, profile, stress)
+  elig = _gen_elig(rng, panel, stress)
+  par = _gen_par(rng, panel, profile, stress)
   ops, enabled = _gen_ops(rng, tier, profile, len(panel['geos']))
   return {'machine': NAME, 'profile': profile,
           'focus': 'C14' if profile == 'c14' else 'C10',
